@@ -89,6 +89,7 @@ type iconn struct {
 	d      *dialer
 	wbuf   []byte
 	wmu    sync.Mutex
+	addr   string
 }
 
 func (c *iconn) Write(p []byte) (int, error) {
@@ -158,6 +159,9 @@ func (c *iconn) SetDeadline(t time.Time) error     { return c.tcpLike(c.Conn.Set
 func (c *iconn) Close() error {
 	if atomic.CompareAndSwapInt32(&c.closed, 0, 1) {
 		atomic.AddInt32(&c.d.open, -1)
+		c.d.mu.Lock()
+		c.d.openBy[c.addr]--
+		c.d.mu.Unlock()
 		c.d.log.add("close", c.id, "", "")
 	}
 	return c.Conn.Close()
@@ -183,6 +187,8 @@ type dialer struct {
 	// proxy-tunnel family: which AddTLS call fails (0: none), how the proxy answers CONNECT
 	tlsCalls, tlsFailAt int32
 	connectPlan         string
+	// open connections per dialled address, and the most seen at once (per-host limits)
+	openBy, maxOpenBy map[string]int
 }
 
 func (d *dialer) DialTimeout(network, address string, timeout time.Duration, tlsConfig *tls.Config) (net.Conn, error) {
@@ -207,7 +213,16 @@ func (d *dialer) DialConnection(nw, address string, timeout time.Duration, tlsCo
 	}
 	a, b := net.Pipe()
 	atomic.AddInt32(&d.open, 1)
-	ic := &iconn{Conn: a, id: int(atomic.AddInt32(&d.dialed, 1)), d: d}
+	ic := &iconn{Conn: a, id: int(atomic.AddInt32(&d.dialed, 1)), d: d, addr: address}
+	d.mu.Lock()
+	if d.openBy == nil {
+		d.openBy, d.maxOpenBy = map[string]int{}, map[string]int{}
+	}
+	d.openBy[address]++
+	if d.openBy[address] > d.maxOpenBy[address] {
+		d.maxOpenBy[address] = d.openBy[address]
+	}
+	d.mu.Unlock()
 	d.log.add("dial", ic.id, "", "")
 	d.peers.Add(1)
 	go func() { defer d.peers.Done(); d.peer(b, ic.id) }()
@@ -412,7 +427,7 @@ func oneRun(w *mon.W, c *mon.Case) {
 	c.Detail = func() interface{} { return map[string]interface{}{"config": cfg} }
 
 	// gauge sampler
-	var maxTotal, samples, badPending int32
+	var maxTotal, samples, badPending, gaugePanics int32
 	var inFlight int32
 	stop := make(chan struct{})
 	sdone := make(chan struct{})
@@ -433,6 +448,11 @@ func oneRun(w *mon.W, c *mon.Case) {
 				}
 			}
 			// pending gauge: 0 <= pending <= calls in flight (read in-flight first: it can only grow meanwhile... sample conservatively)
+			// the exported gauge of queued callers is read like the others (a monitoring
+			// goroutine of the application): it answers, whether or not anybody ever queued
+			if pv, _ := mon.Guard(func() { _ = hc.WantConnectionCount() }); pv != nil {
+				atomic.AddInt32(&gaugePanics, 1)
+			}
 			before := atomic.LoadInt32(&inFlight)
 			p := hc.PendingRequests()
 			if p < 0 || (p > int(before)+G) {
@@ -597,6 +617,10 @@ func oneRun(w *mon.W, c *mon.Case) {
 	// 3. bound
 	if int(maxTotal) > maxConns {
 		fail("bound", "ConnPoolState().TotalConnNum reached %d with MaxConns %d", maxTotal, maxConns)
+		return
+	}
+	if gaugePanics > 0 {
+		fail("gauge-panics", "HostClient.WantConnectionCount() panicked in %d of %d samples (wait-for-free-connection: %v)", gaugePanics, samples, wait)
 		return
 	}
 	if badPending > 0 {
@@ -932,6 +956,65 @@ func work(w *mon.W) {
 			return
 		}
 		w.Shape(mon.Hash64("public-client", G, maxConns, hook, int(c.I)))
+	})
+	// per-host limits: an application gives each host its own connection limit through the
+	// host-client hook (HostClient.SetMaxConns): the limit of one host is not the limit of another
+	w.Cases("per-host-limits", uint64(w.Pick(40, 800)), func(c *mon.Case) {
+		r := c.R
+		log := &runLog{}
+		d := &dialer{log: log, r: r.Fork()}
+		limA, limB := 1+r.Intn(2), 3+r.Intn(2)
+		cl, err := appclient.NewClient(appclient.WithDialer(d), appclient.WithMaxConnsPerHost(8), appclient.WithMaxConnWaitTimeout(3*time.Second), appclient.WithClientReadTimeout(2*time.Second),
+			appclient.WithHostClientConfigHook(func(hc interface{}) error {
+				if h, ok := hc.(*http1.HostClient); ok {
+					if strings.HasPrefix(h.Addr, "peera") {
+						h.SetMaxConns(limA)
+					} else {
+						h.SetMaxConns(limB)
+					}
+				}
+				return nil
+			}))
+		if err != nil {
+			return
+		}
+		order := r.Bool() // which host is used (and configured) first
+		do := func(host, id, plan string) {
+			req, resp := protocol.AcquireRequest(), protocol.AcquireResponse()
+			req.SetRequestURI("http://" + host + "/x?id=" + id + "&plan=" + plan)
+			cl.Do(context.Background(), req, resp) //nolint:errcheck
+			protocol.ReleaseRequest(req)
+			protocol.ReleaseResponse(resp)
+			w.Count("per_host_limit_calls", 1)
+		}
+		first, second := "peera", "peerb"
+		if order {
+			first, second = second, first
+		}
+		do(first, fmt.Sprintf("ph%d-f", c.G), "ok")
+		do(second, fmt.Sprintf("ph%d-s", c.G), "ok")
+		G := 5 + r.Intn(4)
+		var wg sync.WaitGroup
+		for g := 0; g < 2*G; g++ {
+			wg.Add(1)
+			go func(g int) {
+				defer wg.Done()
+				do([]string{"peera", "peerb"}[g%2], fmt.Sprintf("ph%d-%d", c.G, g), "slow")
+			}(g)
+		}
+		wg.Wait()
+		d.mu.Lock()
+		mA, mB := d.maxOpenBy["peera:80"], d.maxOpenBy["peerb:80"]
+		d.mu.Unlock()
+		cl.CloseIdleConnections()
+		c.Detail = func() interface{} {
+			return map[string]interface{}{"family": "per-host-limits", "limit_peera": limA, "limit_peerb": limB, "peerb_first": order, "concurrent_calls_per_host": G}
+		}
+		if mA > limA || mB > limB {
+			c.Violate("host-bound", "client.Client whose host-client hook calls SetMaxConns(%d) for peera and SetMaxConns(%d) for peerb (peerb configured first: %v), %d concurrent slow GETs per host: up to %d connections open to peera and %d to peerb", limA, limB, order, G, mA, mB)
+			return
+		}
+		w.Shape(mon.Hash64("per-host-limits", limA, limB, order, G))
 	})
 	// the pending-gauge family: Do with an already-cancelled context must leave the gauge at 0
 	w.Cases("cancelled", uint64(w.Pick(50, 500)), func(c *mon.Case) {
